@@ -119,6 +119,20 @@ def m_device_services(paths: List[Path]):
     return True, ""
 
 
+def m_unknown_struct(paths: List[Path]):
+    ok_atoms = [("nothing", "FCP.get_struct(NODE.type)"), ("notin", "NODE.type", "[_.name for _ in FCP.structs]")]
+    res, msg = m_single(ok_atoms)(paths)
+    if res is not None:
+        return res, msg
+    if len(paths) == 1 and not paths[0].binds:
+        for sg, a in paths[0].lits:
+            if sg and a[0] in ("notin", "nothing") and "NODE.type" in " ".join(str(x) for x in a[1:]):
+                pop = " ".join(str(x) for x in a[1:])
+                if "get_types" in pop or "enums" in pop or "get_type(" in pop or "get_enum" in pop:
+                    return False, "binding target is looked up among %s, i.e. not among structs only: a binding to an enum name is accepted" % pop[:80]
+    return res, msg
+
+
 ID_KEYS = ["_.fields.get('id')", "_.fields['id']"]
 NODE_IDS = ["NODE.fields.get('id')", "NODE.fields['id']"]
 
@@ -215,9 +229,9 @@ def spec_rows(eng):
         (5, "general", "enum", "enumerator names unique within each enum", m_exists_dup("NODE.enumeration", "_.name")),
         (6, "general", "enum", "enumerator values unique within each enum", m_exists_dup("NODE.enumeration", "_.value")),
         (7, "general", "device", "every service listed by a device exists", m_device_services),
-        (8, "fcp_dbc", "impl", "binding to an unknown struct", m_single([("nothing", "FCP.get_struct(NODE.type)")])),
+        (8, "fcp_dbc", "impl", "binding to an unknown struct", m_unknown_struct),
         (9, "fcp_dbc", "impl", "two CAN bindings with the same frame id", m_dbc_dup_ids),
-        (10, "fcp_can_c", "impl", "binding to an unknown struct", m_single([("nothing", "FCP.get_struct(NODE.type)")])),
+        (10, "fcp_can_c", "impl", "binding to an unknown struct", m_unknown_struct),
         (11, "fcp_can_c", "impl", "CAN message wider than 64 bits", m_c_size(eng)),
     ]
 
@@ -355,6 +369,7 @@ def run(eng, rep) -> None:
     r092(eng, rep, regs)
     r093(eng, rep)
     # ---- R09.4 -----------------------------------------------------------------------
+    stateless(eng, rep, "R09.4", verification_path(eng))
     for f, varg, cat, owner in regs:
         ps = {p.arg for p in f.params}
         bad = []
@@ -367,6 +382,46 @@ def run(eng, rep) -> None:
             if isinstance(root, ast.Name) and root.id in ps and not (kind == "aug" and isinstance(tgt, ast.Name)):
                 bad.append(norm(st, 70))
         rep.check(not bad, "R09.4", f.file, f.qual, "def %s: stores" % f.name, "reads only", "check mutates its arguments: %s" % "; ".join(bad))
+
+
+def stateless(eng, rep, rule: str, funcs) -> None:
+    """No function in `funcs` writes an object that outlives the call (self.*, closure or module state)."""
+    for f in funcs:
+        loc = f.local_names()
+        ps = {p.arg for p in f.params}
+        bad = []
+        for kind, tgt, st in stores_in(f.node):
+            root = tgt
+            while isinstance(root, (ast.Attribute, ast.Subscript)):
+                root = root.value
+            if not isinstance(root, ast.Name):
+                continue
+            if kind == "aug" and isinstance(tgt, ast.Name):
+                continue
+            if root.id == "self" or (root.id not in loc and root.id not in ps):
+                bad.append((norm(st, 70), root.id))
+        for n in walk_local(f.node):
+            if isinstance(n, (ast.Global, ast.Nonlocal)):
+                bad.append((norm(n, 40), ",".join(n.names)))
+        for txt, root in bad:
+            rep.violation(rule, f.file, f.qual, txt, "verification keeps state between calls ('%s' outlives the call): a verdict can be computed from an earlier state of the schema or of the check set" % root)
+        if not bad:
+            rep.ok(rule, f.file, f.qual, "no retained state", "writes only locals")
+
+
+def verification_path(eng):
+    """Verifier.verify, what it reaches inside fcp.verifier, and all registered checks."""
+    prog, cg = eng.prog, eng.cg
+    out = []
+    reach = cg.reachable(["fcp.verifier.Verifier.verify"])
+    for q in sorted(reach):
+        f = prog.functions[q]
+        if f.module.name == "fcp.verifier" and f.name not in ("register", "__init__", "decorator", "make_general_verifier"):
+            out.append(f)
+    for f, _ in cg.registered:
+        if f not in out:
+            out.append(f)
+    return out
 
 
 def r092(eng, rep, regs) -> None:
